@@ -53,6 +53,8 @@ var outboxKinds = map[string]bool{
 	"wrong-json-type":         false,
 	"tombstone":               false,
 	"actor-id-prefix":         false, // another actor whose id merely starts with the owner's id
+	"actor-id-query-variant":             false, // another actor whose id differs from the owner's only in the query
+	"other-actor-create-of-owners-post":  false, // a Create performed by someone else, of a post that is attributed to the owner
 	"own-activity-relative-actor":        true,  // "actor": "/…/owner" resolved against the activity's own (owner's) host
 	"other-host-activity-relative-actor": false, // an activity hosted elsewhere whose relative actor resolves to that other host's actor
 }
@@ -70,6 +72,7 @@ var replyKinds = map[string]bool{
 	"tombstone":                false,
 	"actor-not-post":           false,
 	"reply-to-prefix":          false, // parent id merely starts with this post's id
+	"reply-to-query-variant":   false, // parent id differs from this post's only in the query
 }
 
 func token(i int) string { return fmt.Sprintf("TOK%dX", i) }
@@ -114,6 +117,14 @@ func (w *world) entryValue(c Case, i int, e Entry) any {
 			act["actor"] = map[string]any{"type": "Person", "name": "anonymous"}
 		case "actor-id-prefix":
 			act["actor"] = w.h0("/owner2")
+		case "actor-id-query-variant":
+			act["actor"] = w.h0("/owner?author=2")
+		case "other-actor-create-of-owners-post":
+			act["actor"] = w.h0("/other")
+			postPath := fmt.Sprintf("/ownerspost%d", i)
+			owned := map[string]any{"id": w.h0(postPath), "type": "Note", "name": token(i), "content": "x", "attributedTo": owner}
+			w.docs[postPath] = js(owned)
+			act["object"] = w.h0(postPath)
 		case "own-activity-relative-actor":
 			act["actor"] = w.prefix + "/owner"
 		case "other-host-activity-relative-actor":
@@ -148,6 +159,8 @@ func (w *world) entryValue(c Case, i int, e Entry) any {
 			reply["inReplyTo"] = w.h1("/owner")
 		case "reply-to-prefix":
 			reply["inReplyTo"] = w.h0("/owner2")
+		case "reply-to-query-variant":
+			reply["inReplyTo"] = w.h0("/owner?p=2")
 		case "reply-without-parent":
 		case "reply-foreign-author":
 			reply["inReplyTo"] = post
@@ -220,6 +233,8 @@ func build(c Case, prefix string) *world {
 	case "replies":
 		w.docs["/owner"] = js(map[string]any{"id": w.h0("/owner"), "type": "Note", "name": "OWNERPOST", "content": "the post", "replies": collValue})
 	}
+	w.docs["/owner?author=2"] = js(map[string]any{"id": w.h0("/owner?author=2"), "type": "Person", "name": "QUERYVARIANT", "preferredUsername": "variant"})
+	w.docs["/owner?p=2"] = js(map[string]any{"id": w.h0("/owner?p=2"), "type": "Note", "name": "QUERYVARIANTPOST", "content": "x"})
 	w.docs["/other"] = js(map[string]any{"id": w.h0("/other"), "type": "Person", "name": "OTHER", "preferredUsername": "other"})
 	w.docs["/owner2"] = js(map[string]any{"id": w.h0("/owner2"), "type": "Person", "name": "OWNER2", "content": "x"})
 	w.docs["/otherpost"] = js(map[string]any{"id": w.h0("/otherpost"), "type": "Note", "name": "OTHERPOST", "content": "x"})
